@@ -21,9 +21,18 @@
   `-1` and `decimal("-0.0001")` — both hash to 2^64-1 — came back from its own JSON with the two members swapped and
   marshalled differently), is repaired too: `Set.orderedSlots` lists the slots in probing order
   (`C14_setMarshal_rebuilds`, `C14_setMarshal_roundtrip_stable`).
+  A later review found four more in `x/exp/batch` and `internal/eval` (all repaired): `batch.Authorize` sorted its
+  variables by the NUMBER of values only, so that variables with equally many values were bound in Go map order — which
+  operand's error a partially evaluated policy keeps, and the order of the callbacks, changed from call to call
+  (`C14_batch_binding_order_canonical`, `C14_batchAuthorize_map_order_indep`); the unbound / unused-variable error named
+  the first offender in map order (`C14_batch_unbound_unused_order_indep`); `cloneSub` rebuilt a substituted set in map
+  order (`C14_cloneSub_set_order_indep`); the message of `getTag` on an unspecified entity printed the evaluator node
+  of the tag expression, i.e. a heap address (no order parameter: the harness parses the same text again and again;
+  the model never carried message texts).
 -/
 import CedarGoProofs.Lemmas.C14
 import CedarGoProofs.Lemmas.C14SetOrder
+import CedarGoProofs.Lemmas.C14Batch
 import CedarGoProofs.Lemmas.C11Hash
 import CedarGoProofs.Properties.C20
 namespace CedarGo
@@ -368,6 +377,67 @@ example : coerceSetOrd (fun _ => 3) ["{0.0001,0.0002}", "{0.0003}"] = coerceSetO
 
 /-- without collisions the rendering order is the hash order, whatever the insertion order (two members) -/
 example : coerceSetOrd (fun m => if m == "a" then 5 else 3) ["a", "b"] = ["b", "a"] := by decide +kernel
+
+/-! ### batch.Authorize (x/exp/batch) -/
+
+/-- The order in which `batch.Authorize` binds the variables — fewest values first, among equally many values by
+    name — is the same for every order in which the Go map `request.Variables` yields its entries (a map: distinct
+    names): it is a function of the set of (name, values) entries.  (Before the repair the sort key was the number of
+    values alone and ties stayed in map order: known finding `batch-variable-order-error-message`.) -/
+theorem C14_batch_binding_order_canonical {α : Type} (vars₁ vars₂ : List (String × List α)) (hp : vars₁.Perm vars₂)
+    (nd : (vars₁.map (·.1)).Nodup) : bindingOrder vars₁ = bindingOrder vars₂ :=
+  bindingOrder_eq_of_perm hp nd
+
+/-- … it still is "fewest values first", and it binds exactly the request's variables -/
+theorem C14_batch_binding_fewest_first {α : Type} (vars : List (String × List α)) :
+    (bindingOrder vars).Pairwise (fun a b => a.2.length ≤ b.2.length) ∧ (bindingOrder vars).Perm vars := by
+  refine ⟨(bindingOrder_sorted vars).imp (fun {a b} h => ?_), bindingOrder_perm vars⟩
+  rcases (varLe_iff a b).mp h with h | ⟨h, _⟩ <;> omega
+
+/-- Consequently the whole run of `batch.Authorize` — every callback invocation with its request, substitution,
+    decision, reasons and errors, in order, and the error that ends the run — does not depend on the order in which the
+    map of variables is iterated. -/
+theorem C14_batchAuthorize_map_order_indep {ε : Type} (cancelled : Nat → Bool) (cb : BResult → Except ε Unit)
+    (vars₁ vars₂ : List (String × List Value)) (env : Env) (ps : List (PolicyID × Policy))
+    (hp : vars₁.Perm vars₂) (nd : (vars₁.map (·.1)).Nodup) :
+    batchAuthorizeMap cancelled cb vars₁ env ps = batchAuthorizeMap cancelled cb vars₂ env ps := by
+  unfold batchAuthorizeMap; rw [C14_batch_binding_order_canonical vars₁ vars₂ hp nd]
+
+/-- The variable named by the unbound-variable error (and by the unused-variable error) is the least offending name,
+    whatever order the set of found variables / the map of value lists yields its members in.
+    (Known finding `batch-unbound-unused-variable-order`.) -/
+theorem C14_batch_unbound_unused_order_indep (names₁ names₂ other : List String) (hp : names₁.Perm names₂) :
+    firstUnbound names₁ other = firstUnbound names₂ other ∧ firstUnused names₁ other = firstUnused names₂ other := by
+  unfold firstUnbound firstUnused; rw [sortBy_eq_of_perm strLe_linOrd hp]; exact ⟨rfl, rfl⟩
+
+/-- A set rebuilt by `cloneSub` renders alike whatever order `Set.All()` yielded the members in: the substituted
+    members are sorted before `NewSet` assigns the slots.  (Known finding `batch-substituted-set-member-order`.) -/
+theorem C14_cloneSub_set_order_indep (hash : String → Nat) (sub : String → String) (σ τ : List String) (hp : σ.Perm τ) :
+    cloneSubSetOrd hash sub σ = cloneSubSetOrd hash sub τ := by
+  unfold cloneSubSetOrd; rw [sortBy_eq_of_perm strLe_linOrd (hp.map sub)]
+
+-- regression: the reviewer's witness `principal = Variable("p")`, `resource = Variable("r")`, one value each.  The
+-- unrepaired sort left the two in the order the map yielded them; now `p` is bound first in both orders
+example :
+    bindingOrderByLen [("p", [1]), ("r", [2])] = [("p", [1]), ("r", [2])] ∧
+    bindingOrderByLen [("r", [2]), ("p", [1])] = [("r", [2]), ("p", [1])] ∧
+    bindingOrder [("p", [1]), ("r", [2])] = [("p", [1]), ("r", [2])] ∧
+    bindingOrder [("r", [2]), ("p", [1])] = [("p", [1]), ("r", [2])] := by
+  refine ⟨by decide +kernel, by decide +kernel, by decide +kernel, by decide +kernel⟩
+-- fewest values first still decides before the name does
+example : bindingOrder [("a", [1, 2]), ("z", [3]), ("b", [4, 5])] = [("z", [3]), ("a", [1, 2]), ("b", [4, 5])] := by
+  decide +kernel
+-- two unbound variables: `p` is named, in both orders (the unrepaired loop named the first one met)
+example : firstUnbound ["r", "p"] [] = some "p" ∧ firstUnbound ["p", "r"] [] = some "p" ∧
+    firstUnboundInMapOrder ["r", "p"] [] = some "r" := by
+  refine ⟨by decide +kernel, by decide +kernel, by decide +kernel⟩
+-- the witness `[Variable("x"), 1, true]` with x := "v": `1` and `true` share slot 1; rebuilt in map order they swapped
+example :
+    cloneSubSetInMapOrder (fun m => if m == "\"v\"" then 9 else 1) (fun m => if m == "x" then "\"v\"" else m) ["x", "1", "true"] = ["1", "true", "\"v\""] ∧
+    cloneSubSetInMapOrder (fun m => if m == "\"v\"" then 9 else 1) (fun m => if m == "x" then "\"v\"" else m) ["true", "x", "1"] = ["true", "1", "\"v\""] ∧
+    cloneSubSetOrd (fun m => if m == "\"v\"" then 9 else 1) (fun m => if m == "x" then "\"v\"" else m) ["x", "1", "true"] =
+      cloneSubSetOrd (fun m => if m == "\"v\"" then 9 else 1) (fun m => if m == "x" then "\"v\"" else m) ["true", "x", "1"] := by
+  refine ⟨by decide +kernel, by decide +kernel, by decide +kernel⟩
 
 /-! ### Non-vacuity -/
 
